@@ -18,7 +18,7 @@ func init() { props["C16"] = runC16 }
 
 var c16Layouts = []string{
 	time.RFC3339Nano, time.RFC1123Z, "2006-01-02 15:04:05.000 -0700", time.Kitchen,
-	"Jan _2 15:04:05.000000000 2006 Z07:00", time.StampMicro, "2006-01-02T15:04:05.000000000Z07:00", "15:04:05.999999Z07:00",
+	"Jan _2 15:04:05.000000000 2006 Z07:00", time.StampMicro, time.RFC1123, time.RFC850, time.UnixDate, "2006-01-02T15:04:05.000000000Z07:00", "15:04:05.999999Z07:00",
 }
 
 var c16Defaults = []string{"2006-01-02", "15:04:05Z07:00", "15:04:05.000000Z07:00", "2006-01-0215:04:05Z07:00", "2006-01-02T15:04:05.000000Z07:00"}
@@ -66,7 +66,7 @@ func runC16(r *run) {
 	}
 	ctx := context.Background()
 	base := slog.LstdFlags &^ (slog.Ldate | slog.Ltime | slog.Lmicroseconds | slog.LlocalTime | slog.Lcaller)
-	zones := []*time.Location{time.UTC, time.FixedZone("", 5*3600+45*60), time.FixedZone("NST", -(3*3600 + 30*60)), time.FixedZone("", 14*3600), time.FixedZone("", -12*3600), time.FixedZone("X", 60)}
+	zones := []*time.Location{time.UTC, time.FixedZone("", 5*3600+45*60), time.FixedZone("NST", -(3*3600 + 30*60)), time.FixedZone("", 14*3600), time.FixedZone("", -12*3600), time.FixedZone("X", 60), time.FixedZone("GMT", 0), time.FixedZone("WET", 0)}
 	for i := 0; i < n; i++ {
 		rec := &recorder{}
 		l := slog.New(fmt.Sprintf("t%d", i)).SetWriter(rec).SetErrorWriter(rec).SetLevel(slog.TraceLevel)
@@ -213,6 +213,10 @@ func runC16(r *run) {
 		input := map[string]any{"instant": t.Format(time.RFC3339Nano), "flag_bits_date_time_micro": bits, "local_flag": local, "utc_mode": mode, "logger_layout": layout, "format": format}
 		if !ok || text != want {
 			r.violate(violation{What: "timestamp differs from the instant in the configured zone and layout", Input: input, Expected: want, Actual: text})
+		} else if strings.Contains(wantLayout, "MST") {
+			// a zone abbreviation does not determine the offset (and an unnamed zone is printed as a
+			// numeric offset that the MST verb cannot read): no parse-back for such layouts, the text
+			// comparison above is the whole check
 		} else if p, err := time.Parse(wantLayout, text); err != nil {
 			r.violate(violation{What: "printed timestamp does not parse with its layout", Input: input, Actual: err.Error()})
 		} else if strings.Contains(wantLayout, "2006") && strings.Contains(wantLayout, "15") && strings.Contains(wantLayout, "07") {
